@@ -540,8 +540,27 @@ def _curve_case(rng, tier):
     E = np.ascontiguousarray(_expected(rng, pts, K, kind, room), dtype=float)
     if len(E) > n - len(K):
         E = E[:n - len(K)]
-    return {'class': 'curve', 'points': pts, 'family': fam, 'layout': gen.pick_layout(rng, pts, 0.6),
-            'knees': K, 'expected': E, 'ekind': kind}
+    lay = gen.pick_layout(rng, pts, 0.6)
+    # integral expected points of an int64 curve are handed over as int64 too (knee points copied out of the curve)
+    edt = 'i64' if (lay == 'i64' and gen.is_integral(E) and rng.random() < 0.7) else 'f64'
+    return {'class': 'curve', 'points': pts, 'family': fam, 'layout': lay,
+            'knees': K, 'expected': E, 'ekind': kind, 'edtype': edt}
+
+
+def _large_int_case(rng):
+    """int64 curve of magnitude 1e9..1e10 (bytes, microseconds) with int64 expected points: coordinate differences
+    are exact, their squares exceed 2**63."""
+    pts = gen.large_int_curve(rng, nmax=40)
+    n = len(pts)
+    kind = pick(rng, ['exact', 'exact-shuffled', 'jitter', 'mixed', 'arbitrary', 'midpoint'])
+    nk = int(rng.integers(1, max(min(n // 2, 10), 1) + 1))
+    K = np.unique(np.sort(rng.choice(n, size=nk, replace=False)).astype(int))
+    room = min(n - len(K), 12)
+    E = np.round(np.ascontiguousarray(_expected(rng, pts, K, kind, room), dtype=float))
+    if len(E) > n - len(K):
+        E = E[:n - len(K)]
+    return {'class': 'curve', 'points': pts, 'family': 'large-int64', 'layout': 'i64',
+            'knees': K, 'expected': E, 'ekind': kind, 'edtype': 'i64' if rng.random() < 0.8 else 'f64'}
 
 
 def _matrix_case(rng, count):
@@ -578,7 +597,7 @@ def cases(rng, tier, shard, nshards):
                'ekind': ['exact', 'jitter', 'exact-shuffled', 'mixed'][shard],
                'eseed': int(rng.integers(0, 2 ** 31)), 't': [0.01, 0.0, 0.05, 0.01][shard]}
     for i in range(shard_count(total, shard, nshards)):
-        yield _curve_case(rng, tier)
+        yield _large_int_case(rng) if rng.random() < 0.05 else _curve_case(rng, tier)
 
 
 # ------------------------------------------------------------------ driver
@@ -632,8 +651,9 @@ def run_case(ctx, mods, case):
 
     pts = gen.present(case['points'], case['layout'])
     K = np.asarray(case['knees'], dtype=int)
-    E = np.ascontiguousarray(case['expected'], dtype=float)
+    E = np.ascontiguousarray(case['expected'], dtype=np.int64 if case.get('edtype') == 'i64' else float)
     fam = str(case['family']).split(':')[0]
+    ctx.h('expected_dtype', str(E.dtype))
     ctx.h('case_class', 'curve')
     ctx.h('family_x_ekind', f"{fam}/{case['ekind']}")
     ctx.h('layout', case['layout'])
